@@ -28,6 +28,10 @@ POOL = [
     # one text per failure class: empty, unexpected end, bad number, bad character, missing operand, bad start,
     # doubled operator, TRAILING tokens after a complete prefix (several shapes), unbalanced brackets
     "(", "x +", "1.2.3", "x ? y", "", "2 ^", ")x(", "4 + + 2", "x 2", "12 4", "x + 1)", "4x + 2y) * 7", "(x))", "3!!", "x = ", "= x",
+    # failures with many groups still open, and the bracketed texts that must keep working afterwards
+    "(((((((((( 1 + ", "sgn(sgn(sgn(sgn(sgn(sgn(sgn(sgn(1", "(1 + 2) * x", "4 * sgn(x)",
+    # texts whose printed form is another text (printing is not the inverse of parsing)
+    "4 * -(3)", "4 * -3", "2.0x + 1", "2x + 1", "12.", "x^(2)", "x^2",
 ]
 EDITS = ["pop_front", "pop_back", "delete", "insert", "reverse", "clear", "consume", "dup"]
 
@@ -178,7 +182,28 @@ def replay(ctx, case):
     run_history(ctx, case["history"], final=False)
 
 
+def stress_histories():
+    """Deterministic long histories: each invalid text 40 times in a row, 300 distinct valid texts after a
+    failure, every text after every other text (printed-form / blank-variant collisions)."""
+    invalid = [s for s in POOL if E.parse(s) is None]
+    hs = []
+    for bad in invalid:
+        hs.append([["parse", bad]] * 40 + [["query", q] for q in POOL])
+    hs.append([["parse", "4x +"], ["tokenize", "9 9"]] + [["parse", f"{k}x + {k + 1}"] for k in range(300)] + [["query", q] for q in POOL])
+    for a in POOL:
+        hs.append([["query", a]] + [["query", b] for b in POOL])
+    return hs
+
+
 def run(ctx):
+    for i, h in enumerate(stress_histories()):
+        if i % ctx.nshards != ctx.shard:
+            continue
+        ctx.count("evaluations")
+        ctx.count("stress_histories")
+        it = run_history(ctx, h, final=False)
+        ctx.count("steps", len(h))
+        ctx.nontriv(("stress", i))
     from hypothesis import seed
     from hypothesis.stateful import RuleBasedStateMachine, rule, run_state_machine_as_test
     from hypothesis import settings
